@@ -331,6 +331,8 @@ Fixpoint inverse_pair (c c' : conv) {struct c} : bool :=
   | Opt c1, Opt c1' => is_struct c1 && inverse_pair c1 c1'
   | NilOk c1, _ => inverse_pair c1 c'
   | NilTo _ c1, NilTo _ c1' => is_struct c1 && inverse_pair c1 c1'
+  (* the backward side rejects nil instead of substituting a default: on the forward domain (non-nil) the same pair *)
+  | NilTo _ c1, Struct _ _ => is_struct c1 && inverse_pair c1 c'
   | MapList c1, MapList c1' => inverse_pair c1 c1'
   | MapVals c1, MapVals c1' => inverse_pair c1 c1'
   | Struct n fs, Struct m gs =>
@@ -440,7 +442,12 @@ Definition w2p_msg : conv := Oneof [
 Definition p_filter := St 2 [(0, Copy); (1, MapList id2)].
 Definition p_point := St 2 [(0, Copy); (1, Copy)].
 Definition p_id_or_alias := Oneof [(0, (0, id2)); (1, (1, Copy))]%N.
-Definition p_group := NilTo (VStruct [VNil; VNil]) (St 2 [(0, p_id_or_alias); (1, MapList p_point)]).
+(* toDataPointGroup: a nil group is rejected (if in == nil { return nil, error }, since the repair of F24).
+   The language has no "error on nil": the plain struct conversion makes nil a Panic, i.e. "rejected" -
+   both entry points recover, and the correspondence predicates merge the error and panic classes. *)
+Definition p_group := St 2 [(0, p_id_or_alias); (1, MapList p_point)].
+(* the group conversion before the repair (nil group -> &DataPointGroup{}), kept for the F24 lemmas *)
+Definition p_group_before_f24 := NilTo (VStruct [VNil; VNil]) (St 2 [(0, p_id_or_alias); (1, MapList p_point)]).
 Definition p_chunk := NilTo (VStruct [VInt 0; VNil]) (St 2 [(0, Copy); (1, MapList p_group)]).
 Definition zero_uuid : list N := repeat 0%N 16.
 Definition p_uinfo_err := St 3 [(0, Copy); (2, Copy); (1, BytesToUuid)].     (* toUpstreamOrAlias: toUUID *)
@@ -649,13 +656,28 @@ Record fuzz_case := mkFC {
                                           harness' own recover: 0 message, 1 error, 2 panic, 3 not applicable *)
   fc_dec : outcome value;              (* observed: DecodeFrom on the bytes (Panic = a panic escaped) *)
   fc_read : N;                         (* observed: Transport.Read: 0 message, 1 too-large error, 2 other error, 3 panic *)
-  fc_redec : list (outcome value)      (* observed, when a message was produced: DecodeFrom (EncodeTo m) [protobuf; JSON] *)
+  fc_redec : list (outcome value);     (* observed, when a message was produced: DecodeFrom (EncodeTo m) [protobuf; JSON] *)
+  fc_utf8 : bool                       (* observed: every string field of the produced message is valid UTF-8 (the
+                                          domain on which the JSON byte layer is faithful; the value universe does
+                                          not tell strings from byte fields, so the harness reports it) *)
 }.
 
 Definition model_decode (has_recover : bool) (parsed : option value) : outcome value :=
   recovered has_recover (match parsed with None => Err | Some p => eval p2w_msg p end).
 
 Definition class_of {A} (o : outcome A) : N := match o with Ok _ => 0 | Err => 1 | Panic => 2 end%N.
+
+(* the model's prediction of the re-encode observations: both are decode (encode m) of the model;
+   the JSON one only inside the domain of the JSON byte layer (strings valid UTF-8) *)
+Definition fuzz_corr_redec (c : fuzz_case) : bool :=
+  match fc_dec c with
+  | Ok m => match fc_redec c with
+            | [a; b] => outcome_eqb a (model_roundtrip m)
+                        && (if fc_utf8 c then outcome_eqb b (model_roundtrip m) else true)
+            | _ => false
+            end
+  | _ => match fc_redec c with [] => true | _ => false end
+  end.
 
 Definition fuzz_corr (c : fuzz_case) : bool :=
   outcome_eqb (model_decode true (fc_parsed c)) (fc_dec c)
@@ -666,24 +688,25 @@ Definition fuzz_corr (c : fuzz_case) : bool :=
      end
   && (if size_gate (fc_max c) (fc_len c) then (fc_read c =? 1)%N
       else (fc_read c =? (if is_ok (fc_dec c) then 0 else 2))%N)
-  && match fc_dec c with
-     | Ok m => forallb (fun o => outcome_eqb o (model_roundtrip m)) (fc_redec c)
-     | _ => true
-     end.
+  && fuzz_corr_redec c.
 
-(* the property on the observations alone: no panic escapes; the too-large error exactly for
-   len > max <> 0, before decoding; a produced message re-encodes and decodes back to itself
-   (empty and absent collections identified) in both encodings *)
-Definition fuzz_ok (c : fuzz_case) : bool :=
+(* the property on the observations alone, in two parts.
+   (1) no panic escapes; the too-large error exactly for len > max <> 0, before decoding; otherwise
+       Transport.Read yields a message exactly when DecodeFrom does *)
+Definition fuzz_ok_safe (c : fuzz_case) : bool :=
   negb (class_of (fc_dec c) =? 2)%N
   && negb (fc_read c =? 3)%N
   && (if (negb (fc_max c =? 0)) && (fc_len c >? fc_max c) then (fc_read c =? 1)%N
-      else (fc_read c =? (if is_ok (fc_dec c) then 0 else 2))%N)
-  && match fc_dec c with
-     | Ok m => Nat.eqb (length (fc_redec c)) 2
-               && forallb (fun o => match o with Ok m' => value_eqb (nilnorm m') (nilnorm m) | _ => false end) (fc_redec c)
-     | _ => true
-     end.
+      else (fc_read c =? (if is_ok (fc_dec c) then 0 else 2))%N).
+(* (2) a produced message re-encodes and decodes back to itself (empty and absent collections
+       identified) in both encodings *)
+Definition fuzz_ok_stable (c : fuzz_case) : bool :=
+  match fc_dec c with
+  | Ok m => Nat.eqb (length (fc_redec c)) 2
+            && forallb (fun o => match o with Ok m' => value_eqb (nilnorm m') (nilnorm m) | _ => false end) (fc_redec c)
+  | _ => true
+  end.
+Definition fuzz_ok (c : fuzz_case) : bool := fuzz_ok_safe c && fuzz_ok_stable c.
 
 Definition fuzz_judge (c : fuzz_case) : N :=
   ((if fuzz_corr c then 0 else 1) + (if fuzz_ok c then 0 else 2))%N.
